@@ -49,6 +49,16 @@ def runBodyOps (j : Json) : R Json := do
       | "get_points" => do pure (getPoints be floatIsZero (← getNatArr (← op.getObjVal? "ixs")) b)
       | "select_frames" => do pure (selectFrames be floatIsZero (← getNatArr (← op.getObjVal? "ixs")) b)
       | "slice_step" => do pure (sliceStep be floatScalar floatIsZero (← getNat op "by") b)
+      | "slice" => do
+        let bound := fun (key : String) => match op.getObjVal? key with
+          | .ok Json.null => (none : Option Int)
+          | .ok v => (v.getInt?).toOption
+          | .error _ => none
+        let step := match op.getObjVal? "step" with
+          | .ok Json.null => 1
+          | .ok v => (v.getNat?).toOption.getD 1
+          | .error _ => 1
+        pure (sliceFrames be floatIsZero (bound "a") (bound "b") step b)
       | "zero_filled" => pure (some (zeroFilledBody floatScalar b))
       | "copy" => pure (some b)
       | "hide_points" => do pure (some (hidePoints floatScalar (← getNatArr (← op.getObjVal? "ixs")) b))
